@@ -129,4 +129,6 @@ def run(ctx):
     ns = len(ctx.suite_names)
     rep.floor('R18.1', 'Ok paths with exactly the two interface calls', n_paths, 8 * ns)
     rep.floor('R18.4', 'transparent twins', n_equal, 8 * ns)
+    from rules import profile
+    profile.check(ctx, rep, 'R18.P', ['slog_start', 'sreg_start'], suites=[x + '-remote' for x in ctx.suite_names])
     return rep
